@@ -5,6 +5,7 @@ import warnings
 import numpy as np
 
 from props import _dense_ref as D
+from props import _mps_trace as T
 from props.c02 import trace_stage
 from vlib import common
 
@@ -18,7 +19,7 @@ def e2e_stage(ctx, n_cases):
 
     worst = 0.0
     for i in range(n_cases):
-        n = ctx.rng.choice([2, 3, 4, 5, 6])
+        n = ctx.rng.choice([2, 3, 4, 5, 6, 6, 7, 8])
         # drive shapes: smooth random rows / all rows identical (constant pulse) / constant amplitude and phase with a
         # detuning ramp (the sweep part of an adiabatic protocol) / constant detuning with an amplitude ramp
         shape = ("random", "constant", "delta-ramp", "omega-ramp", "delta-ramp")[i % 5]
@@ -79,10 +80,44 @@ def e2e_stage(ctx, n_cases):
     ctx.extra["e2e_worst_energy_error"] = worst
 
 
+def contract_oracle(ctx, n_cases):
+    """Convergence contract on the REAL DMRGBackendImpl with scripted energies (no model involved): a time step may
+    complete only right after a sweep whose final energy is within the energy tolerance of the final energy of some
+    EARLIER sweep of the run (so never after the very first sweep of a run), and the run raises rather than completes
+    when the budget is exhausted."""
+    for i in range(n_cases):
+        case = T.gen_case(ctx.rng, "DMRG")
+        r = T.run_impl(case)
+        en, etol = case["oenergy"], case["etol"]
+        used, finals, last = 0, [], None
+        bad = None
+        for code, ints, floats in r["events"]:
+            if code == 16:          # one two-site minimisation consumes one scripted energy
+                last = en[used] if used < len(en) else None
+                used += 1
+            elif code == 15 and ints and ints[0] == 0 and last is not None:   # orthogonalize(0): the sweep is over
+                finals.append(last)
+                last = None
+            elif code == 11 and floats and floats[0] != 0.0:   # fill_results: a time step completes
+                if not finals:
+                    continue
+                e = finals[-1]
+                if not any(abs(e - p) < etol for p in finals[:-1]):
+                    bad = (ints[0], e, finals[:-1][-3:])
+                    break
+        ctx.count_case({"kind": "dmrg-contract", "N": case["N"], "steps": case["steps"], "sweeps": len(finals),
+                        "outcome": r["outcome"]}, nontrivial=len(finals) >= 2)
+        if bad:
+            ctx.violation(f"time step {bad[0]} completed right after a sweep with final energy {bad[1]!r} although no earlier "
+                          f"sweep ended within the energy tolerance {etol} of it (earlier finals: {bad[2]})",
+                          {"case": {k: v for k, v in case.items()}, "finding_key": "dmrg-step-completed-unconverged"})
+
+
 def run(ctx):
     common.coq_make(["Model/MpsMachine.vo"])
     common.standard_proof_stage(ctx, "C09", ["Properties/C09.vo"])
     trace_stage(ctx, "DMRG", ctx.n(60, 1200), "C09trace")
+    contract_oracle(ctx, ctx.n(60, 1000))
     e2e_stage(ctx, ctx.n(10, 120))
     ctx.rule = ("(a) scripted DMRG stepping cases (N 2..9, 1-5 steps, energy oracle streams: converging / random / "
                 "flat, max_sweeps 1..2000, energy tolerances 1e-5..2): real DMRGBackendImpl with minimize_energy_pair "
